@@ -25,6 +25,9 @@ def leafKind (n : Node) : DynKind :=
 
 /-- AssignBuf with a *nil* destination pointer of kind `dk`: does it dereference? -/
 def nilDstPanics (acfg : AssignCfg) (dk : DynKind) (s : Src) (noBuf : Bool) : Bool :=
+  -- since `fix: Assign/AssignBuf dereferenced a nil pointer source` a nil source is refused before the
+  -- destination is looked at
+  if s.v.isNilPtr && s.kind != .foreign && !acfg.nilSrcPanics then false else
   match dk with
   | .bytes => true                                   -- `p = *dst.(*[]byte)` in the var block of the default arm; `*dst = …` in the others
   | .string =>
@@ -60,6 +63,11 @@ def assignLeaf (cfg : GenCfg) (n : Node) (old : Val) (s : Src) (noBuf : Bool) : 
 /-- Is a map value of this node a Go reference (changes made through the local copy persist)? -/
 def mapValIsRef (mv : Node) : Bool :=
   mv.ptr || (match mv with | .map _ _ _ => true | .slice i _ => i.typn != "[]byte" | _ => false)
+
+/-- Map values the repaired emitter writes back on every way out (deferred `m[k] = x`): structs and maps held
+by value. -/
+def writesBack (mv : Node) : Bool :=
+  !mv.ptr && (match mv with | .struct _ _ => true | .map _ _ _ => true | _ => false)
 
 /-- Is the slice element variable a reference (`&s[i]`, or a copied pointer)? -/
 def elemIsRef (e : Node) : Bool := e.ptr || !isBuiltinName e.typn
@@ -173,8 +181,11 @@ def setN (cfg : GenCfg) (n : Node) (parentIsMap root : Bool) (v : Val) (p : List
           | .ret | .err =>
             -- the write-back is not reached (unless the repaired emitter always writes back)
             if isNil then ⟨v, r.flow⟩
-            else if mapValIsRef mv && present.isSome then ⟨rewrap (store r.v), r.flow⟩
-            else if !cfg.setLostUpdate && !(r.v == x) then ⟨rewrap (store r.v), r.flow⟩
+            -- a nil map value that the callee created (`if x1 == nil { x1 = make(…) }`) is a fresh local map:
+            -- without the write-back it is lost like any other copy
+            else if mapValIsRef mv && present.isSome && !(cfg.setLostUpdate && isNilColl x) then ⟨rewrap (store r.v), r.flow⟩
+            -- the repaired emitter writes a by-value struct entry back on every way out (deferred `m[k] = x`)
+            else if !cfg.setLostUpdate && (writesBack mv || !(r.v == x)) then ⟨rewrap (store r.v), r.flow⟩
             else if present.isSome then
               ⟨rewrap (store (staleView (if noBuf && src.kind.family != .text then renderPieces src else []) x r.v)), r.flow⟩
             else ⟨v, r.flow⟩
@@ -209,7 +220,7 @@ def setN (cfg : GenCfg) (n : Node) (parentIsMap root : Bool) (v : Val) (p : List
                 let stored := rewrap (.slice isNil (replaceNth es idx.toNat r.v) cap)
                 (match r.flow with
                  | .cont => ⟨stored, .ret⟩
-                 | .ret | .err => if elemIsRef e || !cfg.setLostUpdate then ⟨stored, r.flow⟩ else ⟨v, r.flow⟩
+                 | .ret | .err => if elemIsRef e || !cfg.setScalarElemLost then ⟨stored, r.flow⟩ else ⟨v, r.flow⟩
                  | .panic => ⟨v, .panic⟩)
               | none => ⟨v, .panic⟩
           else ⟨v, .cont⟩
